@@ -61,17 +61,59 @@ def apply_mutant(repo: Repo, m: Mutant) -> Optional[Repo]:
     return Repo(str(repo.root), ov)
 
 
+def _run_mutants(repo: Repo, prop: str, todo):
+    """the mutants of one property are independent: run them in worker processes (the check is CPU bound)"""
+    import os
+    jobs = int(os.environ.get("VERIF_JOBS", "0") or 0) or min(12, os.cpu_count() or 1)
+    if jobs <= 1 or len(todo) <= 2:
+        out = []
+        for m in todo:
+            r2 = apply_mutant(repo, m)
+            if r2 is None:
+                out.append(None)
+                continue
+            res = report.run_property(r2, prop, "quick")
+            out.append((res.findings, res.errors))
+        return out
+    import multiprocessing as mp
+    ctx = mp.get_context("fork")
+    with ctx.Pool(jobs) as pool:
+        return pool.map(_one_forked, [(prop, i) for i in range(len(todo))], chunksize=1)
+
+
+_FORK_REPO = None
+
+
+def _one_forked(args):
+    prop, idx = args
+    repo = _FORK_REPO
+    todo = [m for m in MUTANTS if m.prop == prop]
+    m = todo[idx]
+    r2 = apply_mutant(repo, m)
+    if r2 is None:
+        return None
+    res = report.run_property(r2, prop, "quick")
+    return res.findings, res.errors
+
+
 def run_selftest(prop: str, repo: Repo) -> SelfTestResult:
     from . import mutants  # noqa: F401  (registers MUTANTS)
     todo = [m for m in MUTANTS if m.prop == prop]
     killed, skipped, missed, benign_ok, benign_bad = [], [], [], [], []
     baseline = {f.ident() for f in report.run_property(repo, prop, "quick").findings}
-    for m in todo:
-        r2 = apply_mutant(repo, m)
-        if r2 is None:
+    global _FORK_REPO
+    _FORK_REPO = repo
+    results = _run_mutants(repo, prop, todo)
+    for m, r in zip(todo, results):
+        if r is None:
             skipped.append(m.mid)
             continue
-        res = report.run_property(r2, prop, "quick")
+        findings, errors = r
+
+        class _R:  # same shape as the sequential result
+            pass
+        res = _R()
+        res.findings, res.errors = findings, errors
         new = [f for f in res.findings if f.ident() not in baseline]
         if m.rule is None:
             if new or res.errors:
